@@ -22,8 +22,8 @@ ASSUMPTIONS = [
     "ASCII '~' in spec text stands for U+00B7",
 ]
 
-QUICK = ["nest_q", "counts_q", "hyd_q", "decor_q"]
-THOROUGH = ["nest_t", "counts_t", "hyd_t", "decor_t"]
+QUICK = ["nest_q", "counts_q", "hyd_q", "decor_q", "symsuf"]
+THOROUGH = ["nest_t", "counts_t", "hyd_t", "decor_t", "symsuf"]
 
 ARROWS = {
     "string": {"Reaction": "->", "Equilibrium": "="},
